@@ -10,15 +10,23 @@
     exact real (Flocq); the reader's integer fast path meets the specification;
     the exact path (atof64exact: one or two float operations) returns the
     correctly rounded value; Atoi meets the integer specification on every text.
+    The scanners (underscoreOK, special, readFloat, decimal.set) accept exactly the
+    grammar [lex_float] and readFloat hands on the number the grammar denotes
+    (syntax_iff_grammar, scanner_value); composed: on the exact path ParseFloat
+    equals the specification, and the reader (Model/Reader.v with these parsers)
+    turns every rejected number into a positioned line error and reports exact
+    iteration counts and the parser's values (reader_numbers_correct).
     Not proved (tied to the code by the differential run only, three-way with
     strconv and the Coq-evaluated specification): the decimal slow path
-    (decimal.go, modelled by [rn_b64] of the stored digits), [atofHex]
-    (hex_correct absent), and that [read_float]/[dec_set] accept exactly
-    [lex_float] and hand the right mantissa/exponent on (syntax_iff_grammar absent). *)
+    (decimal.go, modelled by [rn_b64] of the stored digits; decimal.set's digit
+    bookkeeping is covered by the acceptance theorem only) and [atofHex]
+    (hex_correct absent). *)
 From Coq Require Import Reals.
 From Flocq Require Import Core.Core IEEE754.BinarySingleNaN.
 From Perf Require Import Base.Bytes Base.B64 Base.DecSpec Model.Atoi Model.Atof
-                         Proofs.Atoi Proofs.RnB64 Proofs.AtofFast Proofs.AtofExact.
+                         Proofs.Atoi Proofs.RnB64 Proofs.AtofFast Proofs.AtofExact
+                         Proofs.AtofSyntax Proofs.AtofValue Proofs.AtofEndToEnd Proofs.AtofSlow Proofs.ReaderNumbers.
+From Perf Require Import Base.Utf8 Model.Units Model.Reader.
 Local Open Scope Z_scope.
 
 (** [rn_b64] is correct rounding: for the exact real x = (-1)^neg * m * B^e,
@@ -64,6 +72,113 @@ Theorem C03_exact_path_correct : forall m exp neg f, 0 <= m ->
   atof64exact m exp neg = Some f -> f = rn_b64 neg m false exp.
 Proof. exact exact_path_correct. Qed.
 Print Assumptions C03_exact_path_correct.
+
+(** syntax_iff_grammar: ParseFloat reports a syntax error exactly on the texts outside
+    the grammar, hence exactly where the specification does *)
+Theorem C03_syntax_iff_grammar : forall s, snd (parse_float s) = ErrSyntax <-> lex_float s = None.
+Proof. exact (syntax_iff_grammar true). Qed.
+Print Assumptions C03_syntax_iff_grammar.
+
+Theorem C03_syntax_error_agrees : forall s,
+  snd (parse_float s) = ErrSyntax <-> snd (parse_float_spec s) = ErrSyntax.
+Proof. exact (syntax_error_agrees true). Qed.
+Print Assumptions C03_syntax_error_agrees.
+
+(** readFloat computes the sign, base, and the number the grammar denotes, cut after
+    19 (hex: 16) significant digits with the sticky flag [trunc]:
+    M = mant * B^j + tail, 0 <= tail < B^j, exp = E + j (hex: E + 4j), trunc <-> tail <> 0.
+    [no_clamp]: the exponent as written is below 100000 in magnitude (the code stops
+    accumulating exponent digits at 10000) *)
+Theorem C03_scanner_value : forall s neg base2 M E,
+  lex_float s = Some (LNum neg base2 M E) -> no_clamp s ->
+  exists r, read_float s = Some r /\ r_neg r = neg /\ r_hex r = base2 /\
+            cut_of base2 M E (r_mant r) (r_exp r) (r_trunc r).
+Proof. exact read_float_value. Qed.
+Print Assumptions C03_scanner_value.
+
+(** end to end: whenever ParseFloat decides a text by its exact path, its answer is
+    the specification's (the correctly rounded value of the text, no error) *)
+Theorem C03_exact_path_end_to_end : forall s r f,
+  no_clamp s -> underscoreOK s = true -> special s = None ->
+  read_float s = Some r -> r_hex r = false -> r_trunc r = false ->
+  atof64exact (r_mant r) (r_exp r) (r_neg r) = Some f ->
+  parse_float s = (f, ErrNone) /\ parse_float_spec s = (f, ErrNone).
+Proof. exact exact_path_end_to_end. Qed.
+Print Assumptions C03_exact_path_end_to_end.
+
+(** decimal.set (repaired) stores the first 800 significant digits of the number the
+    grammar denotes and the right decimal point:
+    M = V * 10^j + tail, 0 <= tail < 10^j, dp - nd = E + j, trunc <-> tail <> 0 *)
+Theorem C03_decimal_set_value : forall s neg M E,
+  lex_float s = Some (LNum neg false M E) -> no_clamp s ->
+  exists d, dec_set s = Some d /\ d_neg d = neg /\ stored_of M E d.
+Proof. exact dec_set_value. Qed.
+Print Assumptions C03_decimal_set_value.
+
+(** ParseFloat = specification, bit for bit and error for error, on EVERY text that is
+    not a hexadecimal number and whose significant digits fit decimal.set's 800-digit
+    buffer: syntax errors, inf/nan spellings, the exact path, and the slow path
+    (whose final conversion, decimal.go's floatBits, is modelled by its specification —
+    that transcription is the one part of this statement that is about the model only) *)
+Theorem C03_parse_float_correct_nonhex : forall s,
+  no_clamp s ->
+  (forall d, dec_set s = Some d -> d_trunc d = false) ->
+  (forall neg M E, lex_float s <> Some (LNum neg true M E)) ->
+  parse_float s = parse_float_spec s.
+Proof. exact parse_float_correct_nonhex. Qed.
+Print Assumptions C03_parse_float_correct_nonhex.
+
+(** ** the reader (Model/Reader.v, C02) with these parsers plugged in *)
+
+(** range_is_error: an out-of-range measurement is no value for the reader *)
+Theorem C03_range_is_error : forall f,
+  snd (parse_float f) = ErrRange -> fast_loop f 0 = None -> Reader.atof pf_opt f = None.
+Proof. exact range_is_error. Qed.
+Print Assumptions C03_range_is_error.
+
+(** reader_number_errors_are_line_errors: a benchmark line whose iteration count or
+    some measurement is rejected is an error, positioned at that line, and nothing else *)
+Theorem C03_reader_number_errors_are_line_errors : forall is_space is_lower is_upper fname n st line rest k,
+  classify is_space is_lower is_upper atoi_opt pf_opt line = LBench (parse_bench is_space atoi_opt pf_opt rest) ->
+  parse_bench is_space atoi_opt pf_opt rest = BErr k ->
+  step is_space is_lower is_upper atoi_opt pf_opt fname n st line = ([RErr fname n k], st).
+Proof. exact bench_error_is_positioned. Qed.
+Print Assumptions C03_reader_number_errors_are_line_errors.
+
+Theorem C03_bench_line_number_errors : forall is_space rest,
+  let l := runes rest in
+  let '(name, after) := split_field is_space l in
+  (Name.is_nil after && (length name =? length rest)%nat = false) ->
+  match fields is_space after with
+  | [] => True
+  | f :: fs =>
+      (forall v k, Atoi.atoi f = IErr v k -> parse_bench is_space atoi_opt pf_opt rest = BErr EBadIters) /\
+      (forall it pairs g tl, Atoi.atoi f = IOk it -> fs = pairs ++ g :: tl ->
+         (exists vs, meas_fields is_space pairs vs) -> snd (reader_atof g) <> ErrNone ->
+         parse_bench is_space atoi_opt pf_opt rest = BErr EBadMeas)
+  end.
+Proof. exact bench_line_number_errors. Qed.
+Print Assumptions C03_bench_line_number_errors.
+
+(** reader_numbers_correct: in a reported result the iteration count is the exact
+    integer written (an int64); every measurement is the parser's error-free value
+    for its field, unchanged when the unit needs no rescaling; and on the verified
+    paths (integer fast path, exact path) that value is the specification's rn_b64 *)
+Theorem C03_reader_numbers_correct : forall is_space rest name iters vals,
+  parse_bench is_space atoi_opt pf_opt rest = BOk name iters vals ->
+  exists f fs, fields is_space (snd (split_field is_space (runes rest))) = f :: fs /\
+    int_value f = Some iters /\ min_int64 <= iters <= max_int64 /\
+    meas_fields is_space fs vals /\
+    (forall g u v, reader_atof g = (v, ErrNone) -> snd (tidy is_space v u) = u ->
+       v_val (read_value is_space v u) = v) /\
+    (forall g v, g <> [] -> reader_atof g = (v, ErrNone) ->
+       (fast_loop g 0 <> None \/
+        (no_clamp g /\ underscoreOK g = true /\ special g = None /\
+         exists r, read_float g = Some r /\ r_hex r = false /\ r_trunc r = false /\
+                   atof64exact (r_mant r) (r_exp r) (r_neg r) <> None)) ->
+       parse_float_spec g = (v, ErrNone)).
+Proof. exact reader_numbers_correct. Qed.
+Print Assumptions C03_reader_numbers_correct.
 
 (** Atoi on an integer text (optional sign, digits): the exact integer when it
     fits int64, else the range error carrying the bound *)
@@ -136,6 +251,14 @@ Example C03_exact_path_instances :
   atof64exact 1 37 false = Some (rn_b64 false 1 false 37) /\
   atof64exact 4503599627370496 0 false = None.
 Proof. vm_compute. repeat split. Qed.
+
+Example C03_nonhex_instance :
+  (* the hypotheses of C03_parse_float_correct_nonhex hold, e.g., for a 60-digit halfway text *)
+  let s := bs "1.00000000000000011102230246251565404236316680908203125e-3" in
+  no_clamp s /\ (forall d, dec_set s = Some d -> d_trunc d = false) /\
+  lex_float s = Some (LNum false false 100000000000000011102230246251565404236316680908203125 (-56)).
+Proof. cbv zeta. split; [vm_compute; reflexivity|]. split; [|vm_compute; reflexivity].
+  intros d H. vm_compute in H. injection H as <-. reflexivity. Qed.
 
 Example C03_atoi_instances :
   int_value (bs "-9223372036854775808") = Some (-9223372036854775808) /\
